@@ -12,7 +12,7 @@ use std::time::Duration;
 
 const PROP: &str = "C20";
 pub const PORT: u16 = 6503;
-pub const N_STATES: usize = 18;
+pub const N_STATES: usize = 19;
 pub const N_VARIANTS: usize = 8;
 
 pub const STATE_NAMES: [&str; N_STATES] = [
@@ -34,6 +34,7 @@ pub const STATE_NAMES: [&str; N_STATES] = [
     "S15_debugger_floods_without_reading",
     "S16_next_into_a_subroutine_that_never_returns",
     "S17_launch_in_flight_while_the_server_analyses_an_edit",
+    "S18_run_without_debugging_a_test_that_never_ends_then_pause",
 ];
 pub const VARIANT_NAMES: [&str; N_VARIANTS] = [
     "V1_shutdown_exit_close",
@@ -50,6 +51,7 @@ pub const VARIANT_NAMES: [&str; N_VARIANTS] = [
 const LONG_PROGRAM: &str = ".test \"t\" {\n    ldx #0\nouter:\n    ldy #0\ninner:\n    iny\n    .assert ram($20) == ram($20)\n    bne inner\n    inx\n    bne outer\n    brk\n}\n";
 const ENDLESS_SUB_PROGRAM: &str =
     ".test \"t\" {\n    lda #1\n    jsr forever\n    brk\nforever:\n    jmp forever\n}\n";
+const ENDLESS_MAIN_PROGRAM: &str = ".test \"t\" {\n    lda #1\nspin:\n    inx\n    jmp spin\n}\n";
 const SHORT_PROGRAM: &str = ".test \"t\" {\n    lda #1\n    ldx #2\n    brk\n}\n";
 
 #[derive(Clone, Debug)]
@@ -98,6 +100,7 @@ pub fn gen_case(seed: u64, k: u64) -> Case {
             stay_bias: *r.pick(&[0u32, 0, 50, 80, 95]),
             early_coin: *r.pick(&[2u32, 4, 8, 16]),
             stall_bound_us: 1_000_000,
+            schedule: None,
         },
         net: mos_simrt::net::NetKnobs {
             max_chunk: *r.pick(&[0usize, 0, 1, 7, 64]),
@@ -113,6 +116,7 @@ pub fn gen_case(seed: u64, k: u64) -> Case {
         } else {
             400_000
         },
+        record_schedule: false,
     };
     Case {
         state: cell / N_VARIANTS,
@@ -166,6 +170,7 @@ fn program_of(state: usize) -> &'static str {
     match state {
         7 => SHORT_PROGRAM,
         16 => ENDLESS_SUB_PROGRAM,
+        18 => ENDLESS_MAIN_PROGRAM,
         _ => LONG_PROGRAM,
     }
 }
@@ -224,10 +229,16 @@ fn reach_state(
             )?;
             return Ok(());
         }
-        c.request(
-            "launch",
-            json!({"workspace": WS, "testRunner": {"testCaseName": "t"}}),
-        )?;
+        // the launch arguments a front end may send (all legal): "Run Without Debugging" is `noDebug: true`; in the
+        // other states one session in four says `noDebug: false` explicitly
+        let launch_args = if state == 18 {
+            json!({"workspace": WS, "noDebug": true, "testRunner": {"testCaseName": "t"}})
+        } else if mos_simrt::rng::derive(seed, "c20.launch_args", 0) % 4 == 0 {
+            json!({"workspace": WS, "noDebug": false, "testRunner": {"testCaseName": "t"}})
+        } else {
+            json!({"workspace": WS, "testRunner": {"testCaseName": "t"}})
+        };
+        c.request("launch", launch_args)?;
         if state == 11 {
             // an impatient client: pause / continue while the machine is still launching
             c.request("pause", json!({"threadId": 1}))?;
@@ -256,6 +267,20 @@ fn reach_state(
                 }
                 // step over a call that never comes back; the answer is not awaited
                 c.send_only("next", json!({"threadId": 1}))?;
+                clock::sleep(Duration::from_millis(3));
+            }
+            18 => {
+                // the test runs (it never ends by itself); the user presses "pause" - or asks for the registers - and
+                // closes the editor without waiting for the answer
+                clock::sleep(Duration::from_millis(3));
+                match mos_simrt::rng::derive(seed, "c20.s18", 0) % 3 {
+                    0 => c.send_only("pause", json!({"threadId": 1}))?,
+                    1 => c.send_only("variables", json!({"variablesReference": 1}))?,
+                    _ => {
+                        c.send_only("pause", json!({"threadId": 1}))?;
+                        c.send_only("variables", json!({"variablesReference": 1}))?;
+                    }
+                }
                 clock::sleep(Duration::from_millis(3));
             }
             15 => {
@@ -576,6 +601,7 @@ pub struct RunResult {
     pub history: Vec<HistEv>,
     pub quiescence_jumps: u64,
     pub early_firings: u64,
+    pub recorded: Vec<u32>,
 }
 
 fn short_loc(loc: &str) -> String {
@@ -715,6 +741,7 @@ pub fn run_case(case: &Case) -> RunResult {
         history: out.history,
         quiescence_jumps: out.quiescence_jumps,
         early_firings: out.early_firings,
+        recorded: out.recorded,
     }
 }
 
@@ -769,6 +796,8 @@ fn replay(cli: &Cli, path: &std::path::Path) -> i32 {
 
 #[derive(Default, serde::Serialize, serde::Deserialize)]
 struct Acc {
+    #[serde(default)]
+    sched_minimised: u64,
     max_wait_us: u64,
     max_idle_wait_us: u64,
     runs: u64,
@@ -823,6 +852,7 @@ pub fn main(cli: &Cli) -> i32 {
     let determinism = cli.mode.as_deref() == Some("determinism");
     let mut ev = Evidence::new(PROP, cli);
     let silencer = StderrSilencer::new();
+    let known = KnownFindings::load();
     let folded = par_fold_chunked(
         cli,
         n,
@@ -906,13 +936,34 @@ pub fn main(cli: &Cli) -> i32 {
             if let Some(f) = r.found {
                 *acc.sigs.entry(f.sig.clone()).or_insert(0) += 1;
                 if !determinism && !acc.violations.iter().any(|v| v.sig == f.sig) {
+                    // the schedule: recorded, replayed, reduced (first two unlisted signatures per worker)
+                    let mut replay_json = case.to_json();
+                    let mut message = format!("C20 run {}: {}", k, f.message);
+                    if acc.sched_minimised < 2 && known.lookup(PROP, &f.sig).is_none() {
+                        acc.sched_minimised += 1;
+                        let base = case.clone();
+                        if let Some((k2, info)) = minimise_schedule(&case.knobs, &f.sig, 100, &|kn: &ExecKnobs| {
+                            let mut c = base.clone();
+                            c.knobs = kn.clone();
+                            let r = run_case(&c);
+                            (r.found.map(|x| x.sig), r.recorded, r.switches)
+                        }) {
+                            let mut m = case.clone();
+                            m.knobs = k2;
+                            message = format!("{} [schedule minimised: {} -> {} context switches]", message, info["recorded_context_switches"], info["context_switches_of_the_minimised_execution"]);
+                            let seed_only = replay_json;
+                            replay_json = m.to_json();
+                            replay_json["schedule_minimisation"] = info;
+                            replay_json["seed_only_fallback"] = seed_only;
+                        }
+                    }
                     acc.violations.push(Violation {
                         property: PROP,
                         class: f.class.clone(),
                         sig: f.sig.clone(),
-                        message: format!("C20 run {}: {}", k, f.message),
+                        message,
                         run_index: k,
-                        replay: case.to_json(),
+                        replay: replay_json,
                     });
                 }
             }
